@@ -29,6 +29,8 @@ func genHTTP(rng *simkit.Rand, tier string, idx int) *simkit.Case {
 		c.Cfg["write_timeout_ms"] = c.Cfg["timeout_ms"] + 10000
 	}
 	c.Cfg["yield_den"] = []int64{0, 64, 8}[rng.Intn(3)]
+	c.Cfg["stall_den"] = []int64{0, 0, 200}[rng.Intn(3)] // execution-time fault in a third of the runs
+	c.Cfg["stall_max_us"] = 500
 	c.Cfg["stream_delay_us"] = []int64{0, 200, 2000}[rng.Intn(3)]
 	c.Cfg["segment"] = []int64{0, 300, 800}[rng.Intn(3)]
 	c.Cfg["apps"] = int64(rng.Range(1, 3))
